@@ -19,9 +19,15 @@ for dir in "$D"/seeded/$GLOB/; do
       echo "$id n-a (the lines it changes were rewritten by a later fix)" | tee -a "$out"; continue
     fi
   fi
-  res=$("$D/scripts/try_seed.sh" "$patch" "$prop" "$BUDGET" 2>&1)
-  rc=$(echo "$res" | sed -n 's/^try_seed: check exit //p')
-  first=$(echo "$res" | grep -m1 '^VIOLATION' | sed 's/.*replays\///')
+  # smoke mode: one build, the property's scenarios for BUDGET seconds each, stop at the first violation
+  if [ -n "$(git -C /repo status --porcelain --untracked-files=no)" ]; then echo "$id error (/repo not clean)" | tee -a "$out"; continue; fi
+  git -C /repo apply "$patch" || { echo "$id error (apply)" | tee -a "$out"; continue; }
+  res=$(cd "$D" && VERIF_BUDGET_SEC="$BUDGET" ./check smoke "$prop" 2>&1 | grep '^SMOKE-RESULT')
+  git -C /repo checkout -- .
+  case "$res" in
+    *caught*) rc=1;; *clean*) rc=0;; *) rc=2;;
+  esac
+  first=$(echo "$res" | sed 's/.*signature=//')
   case "$rc" in
     1) echo "$id caught $first" | tee -a "$out";;
     0) echo "$id MISSED" | tee -a "$out";;
